@@ -9,6 +9,7 @@ def step (s : Unit) (w : List String) : Unit × String :=
   match w with
   | ["reset"] => (s, "ok")
   | "run" :: _ => (s, "same")
+  | "mon" :: _ => (s, "ok")
   | _ => (s, "bad-op")
 def run (lines : Array String) : IO Unit := runMode lines 1 () step
 end Tetro.Drv.Oambug
